@@ -15,7 +15,7 @@ from .. import history as H
 
 PID = 'C18'
 RULE = ('BFS over all operation sequences up to the depth bound over {export, export(add_bn=False) [PIT], summary, cost|get_cost(name), '
-        'cost_specification := other, := original, forward} on PIT / MPS (per-layer, per-channel) / SuperNet (soft, Gumbel) models with a layer '
+        'cost_specification := other, := original, forward, training step, train()/eval()} on PIT / MPS (per-layer, per-channel) / SuperNet (soft, Gumbel) models with a layer '
         'used twice, a fixed layer and BatchNorm, in train and eval mode, full_cost off/on; every explored history is executed on a fresh real '
         'model together with its observer-free twin and the two probes are compared; non-trivial = a history containing at least one observer')
 ASSUMPTIONS = ['the harness owns the RNG: it re-seeds before every forward / training step of model and twin, so an observer that merely consumes '
@@ -24,7 +24,7 @@ ASSUMPTIONS = ['the harness owns the RNG: it re-seeds before every forward / tra
 
 
 def bounds(tier):
-    return {'quick': {'depth': 4}, 'thorough': {'depth': 6}}[tier]
+    return {'quick': {'depth': 3}, 'thorough': {'depth': 5}}[tier]
 
 
 def _specs(method):
@@ -77,6 +77,26 @@ def _apply(nas, x, op, st, dspec, other):
     elif op == 'get_cost':
         nas.get_cost('a')
         nas.get_cost('b')
+    elif op == 'to_train':
+        nas.train()
+    elif op == 'to_eval':
+        nas.eval()
+    elif op == 'step':
+        st['nfwd'] += 1
+        torch.manual_seed(1991 + st['nfwd'])
+        params = [p for p in nas.parameters() if p.requires_grad]
+        for p in params:
+            p.grad = None
+        y = nas(x)
+        if st['spec'] == 'orig':
+            loss = y.sum() + 1e-3 * (nas.get_cost('a') + nas.get_cost('b'))
+        else:
+            loss = y.sum() + 1e-3 * nas.cost
+        loss.backward()
+        with torch.no_grad():
+            for p in params:
+                if p.grad is not None:
+                    p -= 0.01 * p.grad
     elif op == 'spec_other':
         nas.cost_specification = other
         st['spec'] = 'other'
@@ -87,7 +107,7 @@ def _apply(nas, x, op, st, dspec, other):
         raise ValueError(op)
 
 
-def _probe(nas, x, st, dspec, other):
+def _probe(nas, x, st, dspec, other, with_export=True):
     """everything the property names, read in a fixed order on a throw-away object"""
     obs = {}
     obs['flags'] = F.flags(nas)
@@ -101,19 +121,23 @@ def _probe(nas, x, st, dspec, other):
         obs['cost_orig'] = [round(float(nas.get_cost('a')), 4), round(float(nas.get_cost('b')), 4)]
     torch.manual_seed(31337)      # summary() may draw a (Gumbel) sample for reporting: the harness owns the RNG
     obs['summary'] = F.canon(nas.summary())
-    e1 = nas.export()
-    e2 = nas.export()
-    obs['flags_after_observers'] = F.flags(nas) == obs['flags']
+    if not with_export:
+        obs['flags_after_observers'] = F.flags(nas) == obs['flags']
+        obs['export'] = obs['export_repeat_equal'] = None
+    else:
+        e1 = nas.export()
+        e2 = nas.export()
+        obs['flags_after_observers'] = F.flags(nas) == obs['flags']
     # the exported network shares its unchanged sub-modules with the searched model: evaluate it in eval mode without
     # disturbing the training flags of the live model (using the exported network is not part of the property)
-    saved = [(m, m.training) for m in nas.modules()]
-    with torch.no_grad():
-        e1.eval()
-        e2.eval()
-        obs['export'] = (F.structure(e1), F.sd_hash(e1), F.tensor_hash(e1(x)))
-        obs['export_repeat_equal'] = (F.structure(e2), F.sd_hash(e2), F.tensor_hash(e2(x))) == obs['export']
-    for m, t in saved:
-        m.training = t
+        saved = [(m, m.training) for m in nas.modules()]
+        with torch.no_grad():
+            e1.eval()
+            e2.eval()
+            obs['export'] = (F.structure(e1), F.sd_hash(e1), F.tensor_hash(e1(x)))
+            obs['export_repeat_equal'] = (F.structure(e2), F.sd_hash(e2), F.tensor_hash(e2(x))) == obs['export']
+        for m, t in saved:
+            m.training = t
     # restore the recorded mode (export is known to touch it) so that the forward below runs in the mode the wrapper reports
     torch.manual_seed(424242)
     y = nas(x)
@@ -137,19 +161,46 @@ def _run_history(case, seed, hist):
     st = {'nfwd': 0, 'spec': 'orig'}
     for op in hist:
         _apply(nas, x, op, st, dspec, other)
-    return _probe(nas, x, st, dspec, other), st
+    return _probe(nas, x, st, dspec, other, not case['kw'].get('per_channel')), st
+
+
+def _mode(hist, train):
+    for op in hist:
+        if op == 'to_train':
+            train = True
+        elif op == 'to_eval':
+            train = False
+    return train
 
 
 def _twin(hist):
-    t = [op for op in hist if op == 'forward']
+    # non-observers are kept, in order; the specification in force matters for 'step', so its switches are kept as well
+    # but collapsed (a switch to the specification already in force in the twin is dropped)
+    t = []
     spec = 'orig'
     for op in hist:
-        if op == 'spec_other':
+        if op in ('forward', 'to_train', 'to_eval', 'step'):
+            t.append(op)
+        elif op == 'spec_other' and spec != 'other':
             spec = 'other'
-        elif op == 'spec_orig':
+            t.append(op)
+        elif op == 'spec_orig' and spec != 'orig':
             spec = 'orig'
-    if spec == 'other':
-        t.append('spec_other')
+            t.append(op)
+    # drop switch pairs that enclose no step (spec_other ... spec_orig with only mode changes / forwards in between)
+    changed = True
+    while changed:
+        changed = False
+        for i, op in enumerate(t):
+            if op in ('spec_other', 'spec_orig'):
+                j = i + 1
+                while j < len(t) and t[j] in ('forward', 'to_train', 'to_eval'):
+                    j += 1
+                if j < len(t) and t[j] in ('spec_other', 'spec_orig'):
+                    del t[j]
+                    del t[i]
+                    changed = True
+                    break
     return tuple(t)
 
 
@@ -169,7 +220,9 @@ def run_case(case, seed):
                 spec = 'other'
             elif op == 'spec_orig':
                 spec = 'orig'
-        ops = ['export', 'summary', 'forward']
+        ops = ['export', 'summary', 'forward', 'step', 'to_eval' if _mode(hist, case['train']) else 'to_train']
+        if case['kw'].get('per_channel'):
+            ops.remove('export')     # per-channel MPS export is documented as unsupported (README; C02 is per-layer only)
         if method == 'pit':
             ops.append('export_nobn')
         ops += ['get_cost', 'spec_other'] if spec == 'orig' else ['cost', 'spec_orig']
@@ -191,19 +244,19 @@ def run_case(case, seed):
             twin_cache[tw] = _run_history(case, seed, tw)[0]
         ref = twin_cache[tw]
         evals[0] += 1
-        if any(op != 'forward' for op in hist):
+        if any(op not in ('forward', 'step', 'to_train', 'to_eval') for op in hist):
             nontrivial.add(f"{case['method']}/{case['model']}/{case['train']}/{case['full_cost']}/{'.'.join(hist)}")
         diffs = [k for k in obs if obs[k] != ref[k]]
         # which observer is to blame: the last op of the history (shorter histories were checked before)
         if diffs:
             last = hist[-1]
-            mode = 'train' if case['train'] else 'eval'
+            mode = 'train' if _mode(hist, case['train']) else 'eval'
             viol.append({'kind': 'observer-changed-model', 'sig': f'observer-changed-model/{method}/{last}/{mode}/' + '+'.join(sorted(diffs)),
                          'msg': f'{case["model"]} ({mode}, full_cost={case["full_cost"]}): after history {list(hist)} the probe differs from the '
                                 f'observer-free twin {list(tw)} in {diffs}: ' +
                                 '; '.join(f'{k}: {str(obs[k])[:80]} vs {str(ref[k])[:80]}' for k in diffs[:3]),
                          'case': dict(base_case, history=list(hist))})
-        if not obs['export_repeat_equal']:
+        if obs['export_repeat_equal'] is False:
             viol.append({'kind': 'repeated-exports-differ', 'sig': f'repeated-exports-differ/{method}',
                          'msg': f'history {list(hist)}: two consecutive export() calls returned different networks',
                          'case': dict(base_case, history=list(hist))})
